@@ -36,6 +36,14 @@ Path <-> dict translation
 """
 
 
+def _renders_to(r: Resolver, template: str, data: dict, path: str) -> bool:
+    """
+    Checks that the resolved data renders back to the given path, as a path
+    (an empty value leaves a double separator, which is not the path of the resolved data but another path).
+    """
+    return Path(r.get_format_for(template).format(**data)).as_posix() == path
+
+
 def _resolve_exact(r: Resolver, path: str, _type: Optional[str] = None) -> Tuple[str, dict] | Tuple[None, None]:
     """
     Resolves the path with the given template "_type", or with the first template that resolves it exactly.
@@ -56,7 +64,7 @@ def _resolve_exact(r: Resolver, path: str, _type: Optional[str] = None) -> Tuple
             template, data = r.resolve_first(path)
         if not data:
             return None, None
-        if r.get_format_for(template).format(**data) == path:
+        if _renders_to(r, template, data, path):
             return template, dict(data)
         labels = [label for label in labels if label != template]
     except ResolvaException:
@@ -68,7 +76,7 @@ def _resolve_exact(r: Resolver, path: str, _type: Optional[str] = None) -> Tuple
             data = r.resolve_one(path, label)
         except ResolvaException:
             continue
-        if data and r.get_format_for(label).format(**data) == path:
+        if data and _renders_to(r, label, data, path):
             return label, dict(data)
 
     return None, None
